@@ -88,8 +88,38 @@ def evaluate(patch: str, demo: str | None, run_tests: bool = True) -> dict:
         shutil.rmtree(d, ignore_errors=True)
 
 
+def refresh_archive(run_tests: bool) -> int:
+    """Re-evaluate every archived seed against the current /repo and the current checks; rewrites 'fired' in meta.json."""
+    from concurrent.futures import ThreadPoolExecutor
+
+    dirs = sorted(glob.glob("/verif/seeded/*/"))
+
+    def one(d):
+        meta_p = os.path.join(d, "meta.json")
+        meta = json.load(open(meta_p))
+        r = evaluate(os.path.join(d, "patch.diff"), os.path.join(d, "demo.py"), run_tests)
+        ok = r.get("applies") and r.get("compiles") and r.get("demo_pristine_rc") == 0 and r.get("demo_patched_rc", 0) != 0 and r.get("tests_ok", True)
+        meta["fired"] = r.get("fired")
+        own = (r.get("fired") or {}).get(meta["property"], [])
+        meta["detected_by_target_property"] = bool(own) and not any(x.startswith("ANALYSIS") for x in own)
+        meta["still_confirmed_on_current_repo"] = bool(ok)
+        json.dump(meta, open(meta_p, "w"), indent=1)
+        return os.path.basename(d.rstrip("/")), bool(ok), meta["detected_by_target_property"], r.get("fired")
+
+    bad = 0
+    with ThreadPoolExecutor(8) as ex:
+        for name, ok, det, fired in ex.map(one, dirs):
+            if not ok or not det:
+                bad += 1
+                print(f"{name}: confirmed={ok} target-detected={det} fired={fired}")
+    print(f"{len(dirs)} archived seeds re-evaluated, {bad} need attention")
+    return 0
+
+
 def main() -> int:
     args = sys.argv[1:]
+    if args and args[0] == "--archive":
+        return refresh_archive("--with-tests" in args)
     keep = None
     run_tests = True
     if "--keep-as" in args:
